@@ -55,7 +55,7 @@ func c19list(g *engine, rng *rand.Rand, n, pattern int) ([]*banderwagon.Element,
 		j := rng.Intn(len(g.e))
 		switch pattern {
 		case 0: // distinct copies in random representations
-			store[i] = Rerepresent(&g.e[j], rng.Intn(6), rng)
+			store[i] = Rerepresent(&g.e[j], rng.Intn(NumRepKinds), rng)
 			if rng.Intn(2) == 0 {
 				store[i] = g.e[j]
 			}
